@@ -954,6 +954,10 @@ def updLine (u : UpdInfo) : String :=
 
 /-- the model's step function: one input, run to quiescence -/
 def Outstation.step (env : OEnv) (s : OState) (inp : OInput) : OState × List OOut :=
+  if s.mode matches .dead then
+    -- the task is gone (and the database mutex poisoned): nothing happens any more
+    (match inp with | .setScript f => { s with script := f s.script } | _ => s, [])
+  else
   match inp with
   | .setScript f => ({ s with script := f s.script }, [])
   | .rx src dst data =>
